@@ -109,7 +109,7 @@ class Session:
         """emit one put/get line; returns lineno"""
         rng = self.rng
         tok, k, flex = self.pick_mem(v, forget)
-        acc = access_tokens(rng, v, start, count, stride, tok, k, flex, form=form)
+        acc = access_tokens(rng, v, start, count, stride, tok, k, flex, form=form, allow_resized=True)
         parts = acc.split(' ')
         form_used = parts[1]
         buftok = parts[3]
